@@ -73,7 +73,7 @@ def run_case(i, tier, seed):
     else:
         typ = rng.choice(["IU2", "C*8"])
         level = rng.choice(["1.5", "3.1"]) if typ == "IU2" else "1.1"
-        kind = harness.FS_KINDS[i % 4]
+        kind = harness.FS_KINDS[i % 5]
         k = rng.choice([1, 1, 2, 3, 4])
         geoms0 = [_geometry(rng, tier) for _ in range(k)]
         pat0 = rng.choice(PATTERNS)
@@ -89,7 +89,7 @@ def run_case(i, tier, seed):
     root0 = None
     for pidx, (geoms, pattern) in enumerate(products):
         if i < nrand:
-            kind = harness.FS_KINDS[(i + (pidx % 2)) % 4]
+            kind = harness.FS_KINDS[(i + (pidx % 2)) % 5]
         pols = ["HH", "HV", "VH", "VV"][: len(geoms)]
         names = gen.product_names(level, pols=pols)
         files = {}
